@@ -85,7 +85,7 @@ def engine_suite(run, scratch, seed, n, oracle_fns=(), profile=None, name="engin
                        "broken": "correspondence %s (model Engine.v/Ops.v vs bt/core.py)" % name},
                       "correspondence %s: implementation and model disagree on %d of %d histories; minimal: %s"
                       % (name, tally["diff"], len(cases), json.dumps(r[2])[:300]),
-                      found_input=found or True)
+                      found_input=True if found else None)
     samples = [{"name": c["name"], "tree": c["tree"], "ops": c["ops"][:8], "comm": c["comm"], "intpos": c["intpos"]}
                for c in cases[:2]]
     # the extracted binary against the kernel's own evaluation of the model, on a sample of this run's cases
@@ -165,6 +165,7 @@ def backtest_suite(run, scratch, seed, n, name="backtest_runs", oracle_fns=(), k
                        "broken": "correspondence %s (model Algos.v/Engine.v vs bt/algos.py, bt/backtest.py, bt/core.py)" % name},
                       "correspondence %s: implementation and model disagree on %d of %d backtests; first: %s %s"
                       % (name, tally["diff"], len(cases), c["name"], json.dumps(d)[:300]))
+    run.last_diff_cases = [c for c, v, d, ic, mc in res if v == "diff"]
     return {"evaluations": len(cases), "distinct_nontrivial": len(nontrivial),
             "traces_validated_against_impl": tally["equal"] + tally["drift"], "bit_drift": tally["drift"],
             "disagreements": tally["diff"], "final_status_histogram": err_hist, "algo_histogram": algo_hist,
@@ -570,7 +571,6 @@ def perturb_after(case, cut, rng):
 
 def lookahead_suite(run, scratch, seed, n):
     import random
-    import backtest_corr
     import gen_backtest
     rng = random.Random(seed * 101 + 9)
     cases = gen_backtest.gen_cases(seed + 11, n)
@@ -578,6 +578,41 @@ def lookahead_suite(run, scratch, seed, n):
     for c in cases:
         cut = rng.randint(1, len(c["dates"]) - 2)
         pairs.append((dict(c, dump_on_error=True), dict(perturb_after(c, cut, rng), dump_on_error=True), cut))
+    bad, compared, nontrivial = run_lookahead_pairs(run, scratch, pairs, "lookahead_pairs")
+    return {"evaluations": 2 * len(pairs), "distinct_nontrivial": nontrivial, "traces_validated_against_impl": compared,
+            "oracle_failures": bad,
+            "rule": "each generated backtest is run twice on the implementation: as is, and with every price, signal, stat, "
+                    "target weight, notional, bid/offer, coupon and cost value dated after a random cut replaced; all history "
+                    "rows and all per-run temp traces up to the cut must be identical token for token; non-trivial = pairs with "
+                    "an open position before the cut",
+            "samples": [{"name": a["name"], "cut_row": cut, "tree": a["tree"]} for a, b, cut in pairs[:2]]}
+
+
+def lookahead_search(run, scratch, seed, cases, per_case=40):
+    """the search for a failing input after a correspondence broke: every backtest on which model and implementation
+    disagree is perturbed after several cuts and run on the implementation alone"""
+    import random
+    rng = random.Random(seed * 7 + 1)
+    pairs = []
+    for c in cases[:12]:
+        n = len(c["dates"])
+        cuts = list(range(1, n - 1))
+        rng.shuffle(cuts)
+        for cut in sorted(cuts[:per_case]):
+            b = perturb_after(c, cut, rng)
+            pairs.append((dict(c, name=c["name"] + "_s%d" % cut, dump_on_error=True),
+                          dict(b, name=c["name"] + "_s%dp" % cut, dump_on_error=True), cut))
+    if not pairs:
+        return {"evaluations": 0, "distinct_nontrivial": 0, "traces_validated_against_impl": 0, "oracle_failures": 0,
+                "rule": "no disagreeing backtest to search from", "samples": []}
+    bad, compared, nontrivial = run_lookahead_pairs(run, scratch, pairs, "lookahead_search")
+    return {"evaluations": 2 * len(pairs), "distinct_nontrivial": nontrivial, "traces_validated_against_impl": compared,
+            "oracle_failures": bad,
+            "rule": "targeted search after a broken correspondence: the disagreeing backtests, perturbed after up to %d cuts each" % per_case,
+            "samples": [{"name": a["name"], "cut_row": cut} for a, b, cut in pairs[:2]]}
+
+
+def run_lookahead_pairs(run, scratch, pairs, suite_name):
     flat = [x for a, b, _ in pairs for x in (a, b)]
     out = []
     for i in range(0, len(flat), 120):
@@ -624,17 +659,11 @@ def lookahead_suite(run, scratch, seed, n):
         if diff:
             bad += 1
             if bad <= 2:
-                run.violation({"suite": "lookahead_pairs", "case": a, "perturbed_case": b, "cut_row": cut,
+                run.violation({"suite": suite_name, "case": a, "perturbed_case": b, "cut_row": cut,
                                "first_difference": {"key": diff[0], "original": diff[1], "perturbed": diff[2]}},
                               "results up to data date %d of %s change when only later data is changed (%s)"
                               % (cut, a["name"], diff[0]))
-    return {"evaluations": 2 * len(pairs), "distinct_nontrivial": nontrivial, "traces_validated_against_impl": compared,
-            "oracle_failures": bad,
-            "rule": "each generated backtest is run twice on the implementation: as is, and with every price, signal, stat, "
-                    "target weight, notional, bid/offer, coupon and cost value dated after a random cut replaced; all history "
-                    "rows and all per-run temp traces up to the cut must be identical token for token; non-trivial = pairs with "
-                    "an open position before the cut",
-            "samples": [{"name": a["name"], "cut_row": cut, "tree": a["tree"]} for a, b, cut in pairs[:2]]}
+    return bad, compared, nontrivial
 
 
 def tok_nonzero(t):
